@@ -10,10 +10,16 @@ import vf
 
 PROP = "C09"
 ERROR_NAME_ONLY = re.compile(r"quorum:commit:expected=(?!ok:)(\w+):observed=(?!ok$|panic$)(\w+)")
+# (config, part, power scales).  i64::MAX = 7 * BIG, so with scale BIG the validator set's total overflows u64
+# exactly when the model total exceeds 14 units (PowerCap = 14 in MC_Quorum_overflow.cfg); the other configs keep
+# NV * MaxPower <= 14 where BIG is used.
+BIG = (2 ** 63 - 1) // 7
 CONFIGS = {
-    "quick": [("MC_Quorum_commit_q.cfg", "commit"), ("MC_Quorum_commit4_q.cfg", "commit"), ("MC_Quorum_pipeline.cfg", "pipeline")],
-    "thorough": [("MC_Quorum_commit_q.cfg", "commit"), ("MC_Quorum_commit_t.cfg", "commit"),
-                 ("MC_Quorum_commit5_t.cfg", "commit"), ("MC_Quorum_pipeline.cfg", "pipeline")],
+    "quick": [("MC_Quorum_commit_q.cfg", "commit", [1, 1000003, BIG]), ("MC_Quorum_commit4_q.cfg", "commit", [1, BIG]),
+              ("MC_Quorum_overflow.cfg", "commit", [BIG]), ("MC_Quorum_pipeline.cfg", "pipeline", [1])],
+    "thorough": [("MC_Quorum_commit_q.cfg", "commit", [1, 1000003, BIG]), ("MC_Quorum_commit_t.cfg", "commit", [1, 1000003, BIG]),
+                 ("MC_Quorum_commit5_t.cfg", "commit", [1, 4294967295 // 5]), ("MC_Quorum_overflow.cfg", "commit", [BIG]),
+                 ("MC_Quorum_pipeline.cfg", "pipeline", [1])],
 }
 ENTRY = {"commit": "celestia::verif_harness::quorum_cases", "pipeline": "celestia::verif_harness::pipeline_cases"}
 
@@ -23,29 +29,29 @@ def run(tier, seed):
     vf.sany("Quorum.tla")
     states = 0
     cfgs = []
-    allcases = {"commit": {}, "pipeline": {}}
-    for cfg, part in CONFIGS[tier]:
+    allcases = {}
+    for cfg, part, scales in CONFIGS[tier]:
         r = vf.run_tlc("Quorum.tla", cfg, tag=f"c09-{cfg}", workers=8, timeout=2400, coverage=False)
         if r.violation:
             v.mismatch(f"spec:Quorum:{cfg}:{r.violation}", vf.tlc_violation_case(r))
             continue
         states += r.distinct
+        bucket = allcases.setdefault((part, tuple(scales)), {})
         for t in r.tlines:
-            allcases[part].setdefault(vf.canon([t["powers"], t["commit"], t["meta"], t["rblob"]]), t)
+            bucket.setdefault(vf.canon([t["powers"], t["commit"], t["meta"], t["rblob"], t["junk"]]), t)
         cfgs.append({"cfg": cfg, "distinct": r.distinct, "wall_s": round(r.wall, 1)})
     evaluations = 0
     nontrivial = 0
     divergences = {}
     samples = []
-    for part, cases in allcases.items():
+    for (part, scales), cases in allcases.items():
         cases = list(cases.values())
         if not cases:
             continue
-        scales = [1] if part == "pipeline" else ([1, 1000003] if tier == "quick" else [1, 1000003, 4294967295 // 5])
         for scale in scales:
             # power scaling: 3*c > 2*t is invariant under multiplying all powers by a constant, so the expected
             # verdicts are unchanged while the implementation's integer arithmetic sees large operands
-            results = vf.run_harness_sharded("astria-conductor", ENTRY[part], cases, tag=f"c09-{part}-{tier}-{scale}",
+            results = vf.run_harness_sharded("astria-conductor", ENTRY[part], cases, tag=f"c09-{part}-{tier}-{scale}-{len(cases)}",
                                              shards=14 if part == "commit" else 4, timeout=2400,
                                              env={"VERIF_POWER_SCALE": scale})
             if len(results) != len(cases):
